@@ -1,8 +1,176 @@
 import Driver.Util
+import Martian.Vdr
 
-/-! Line-protocol handler for property C04 (stub: replaced when the model exists). -/
+/-! Line-protocol handler for properties C04 / C14 (the VDR model).
+
+Paths travel hex-encoded and are handled as byte strings (one `Char` per
+byte, as the Go code compares strings byte-wise); argument and node names are
+used in their hex form as opaque identifiers. -/
 namespace Driver.C04
+open Martian.Vdr Driver
 
-def handle (_op : String) (_args : List String) : Option String := none
+def pathOfHex (s : String) : Option Path := do
+  let b ← bytesOfHex s
+  pure (b.map fun x => Char.ofNat x.toNat)
+
+def hexOfPath (p : Path) : String := hexOfBytes (p.map fun c => UInt8.ofNat c.toNat)
+
+def pathList (s : String) : Option (List Path) :=
+  if s == "." then some [] else (s.splitOn ",").mapM pathOfHex
+
+def idList (s : String) : List String := if s == "." then [] else s.splitOn ","
+
+def pathLt (a b : Path) : Bool := decide (a < b)
+
+def sortPaths (l : List Path) : List Path := l.mergeSort pathLe
+
+def showPaths (l : List Path) : String :=
+  if l.isEmpty then "." else ",".intercalate ((sortPaths l).map hexOfPath)
+
+def sortStrs (l : List String) : List String := l.mergeSort (fun a b => !(decide (b < a)))
+
+/-- `k=v1,v2;k=v1` -/
+def parseAssoc (s : String) : Option (List (String × List String)) :=
+  if s == "." then some [] else
+  (s.splitOn ";").mapM fun kv =>
+    match kv.splitOn "=" with
+    | [k, v] => some (k, idList v)
+    | _ => none
+
+def parseArgPaths (s : String) : Option (List (Arg × List Path)) := do
+  let l ← parseAssoc s
+  l.mapM fun (k, vs) => do
+    let ps ← vs.mapM pathOfHex
+    pure (k, ps)
+
+def parseKind (s : String) : Option Kind :=
+  match s with
+  | "t0" => some (.tmp 0)
+  | "t1" => some (.tmp 1)
+  | "t2" => some (.tmp 2)
+  | "o" => some .out
+  | "c" => some .chunk
+  | _ => none
+
+def parseDisk (s : String) : Option (List DiskEnt) :=
+  if s == "." then some [] else
+  (s.splitOn ";").mapM fun e =>
+    match e.splitOn ":" with
+    | [p, sz, k] => do
+      let p ← pathOfHex p
+      let sz ← sz.toNat?
+      let k ← parseKind k
+      pure { path := p, size := sz, kind := k }
+    | _ => none
+
+def parseCache (s : String) : Option (Option (List Entry)) :=
+  if s == "none" then some none
+  else if s == "." then some (some [])
+  else do
+    let es ← (s.splitOn ";").mapM fun e =>
+      match e.splitOn ":" with
+      | [p, as, sz, n] => do
+        let p ← pathOfHex p
+        let sz ← sz.toNat?
+        let n ← n.toNat?
+        pure ({ path := p, args := idList as, size := sz, count := n } : Entry)
+      | _ => none
+    pure (some es)
+
+def parseEv (s : String) : Option Ev :=
+  match s.toList with
+  | 'd' :: r => some (.nodeDone (String.ofList r))
+  | ['e'] => some .removeEmpty
+  | ['c'] => some .cacheMap
+  | ['k'] => some .kill
+  | 'y' :: r => (String.ofList r).toNat?.map .early
+  | _ => none
+
+def parseEvs (s : String) : Option (List Ev) :=
+  if s == "." then some [] else (s.splitOn ",").mapM parseEv
+
+def showHolder : Holder → String
+  | none => "~"
+  | some n => n
+
+def showAssoc (l : List (String × List String)) : String :=
+  if l.isEmpty then "." else
+  ";".intercalate ((l.mergeSort (fun a b => !(decide (b.1 < a.1)))).map fun (k, vs) =>
+    k ++ "=" ++ (if vs.isEmpty then "." else ",".intercalate (sortStrs vs)))
+
+def showState (s : St) : String :=
+  "final=" ++ boolStr s.final ++
+  " removed=" ++ showPaths (s.removed.map (·.path)) ++
+  " count=" ++ toString s.report.count ++
+  " size=" ++ toString s.report.size ++
+  " paths=" ++ showPaths (topLevel s.report.paths).eraseDups ++
+  " fileargs=" ++ showAssoc (s.fileArgs.map fun (a, hs) => (a, hs.map showHolder)) ++
+  " postnodes=" ++ showAssoc s.postNodes
+
+def parseEvents (s : String) : Option (List VEvent) :=
+  if s == "." then some [] else
+  (s.splitOn ",").mapM fun e =>
+    match e.splitOn ":" with
+    | [t, d] => do
+      let t ← t.toNat?
+      let d ← d.toInt?
+      pure { ts := t, delta := d }
+    | _ => none
+
+def showEvents (l : List VEvent) : String :=
+  if l.isEmpty then "." else ",".intercalate (l.map fun e => toString e.ts ++ ":" ++ toString e.delta)
+
+def parseReport (s : String) : Option (Option KReport) :=
+  if s == "nil" then some none else
+  match s.splitOn "|" with
+  | [st, c, sz, ps, evs] => do
+    let st ← st.toNat?
+    let c ← c.toNat?
+    let sz ← sz.toNat?
+    let ps ← pathList ps
+    let evs ← parseEvents evs
+    pure (some { stamp := st, count := c, size := sz, paths := ps, events := evs })
+  | _ => none
+
+def showReport (r : KReport) : String :=
+  toString r.stamp ++ "|" ++ toString r.count ++ "|" ++ toString r.size ++ "|" ++
+  (if r.paths.isEmpty then "." else ",".intercalate (r.paths.map hexOfPath)) ++ "|" ++ showEvents r.events
+
+def handle (op : String) (args : List String) : Option String :=
+  match op, args with
+  | "inside", [t, p] => do
+    let t ← pathOfHex t
+    let p ← pathOfHex p
+    pure (boolStr (pathIsInside t p))
+  | "overlap", [ns, fs] => do
+    let ns ← pathList ns
+    let fs ← pathList fs
+    pure (boolStr (anyOverlap ns fs))
+  | "run", [flags, names, files, fargs, pnodes, cache, disk, ran, rep, done, evs] => do
+    let fl := flags.toList
+    let c : Cfg := {
+      volatile := fl.getD 0 '0' == '1', strict := fl.getD 1 '0' == '1', splits := fl.getD 2 '0' == '1',
+      argNames := ← parseArgPaths names, argFiles := ← parseArgPaths files }
+    let fa ← parseAssoc fargs
+    let pn ← parseAssoc pnodes
+    let cache ← parseCache cache
+    let disk ← parseDisk disk
+    let (cnt, sz) ← match rep.splitOn "|" with
+      | [a, b] => do pure ((← a.toNat?), (← b.toNat?))
+      | _ => none
+    let s : St := {
+      fileArgs := fa.map fun (a, hs) => (a, hs.map fun h => if h == "~" then none else some h),
+      postNodes := pn, cache := cache, disk := disk,
+      ran := (if ran == "." then [] else ran.toList.map fun ch => ch.toNat - 48),
+      report := { count := cnt, size := sz }, doneNodes := idList done }
+    let evs ← parseEvs evs
+    pure (showState (run c s evs))
+  | "mergeevents", [evs] => do
+    let evs ← parseEvents evs
+    pure (showEvents (mergeEvents evs))
+  | "merge", [rs] => do
+    let rs ← (rs.splitOn ";").mapM parseReport
+    pure (showReport (mergeReports rs))
+  | _, _ => none
 
 end Driver.C04
